@@ -1,4 +1,9 @@
 #!/bin/sh
+# Build the verification machinery offline from files on disk.
 set -e
 cd "$(dirname "$0")"
+export CARGO_NET_OFFLINE=true
+mkdir -p target evidence replays
+(cd sim && cargo build --release --offline)
+if [ -d shuttle ]; then (cd shuttle && cargo build --release --offline); fi
 exit 0
